@@ -624,6 +624,11 @@ class StrategyDict(MultiKeyDict):
 
   def __setitem__(self, key, value):
     keys = key if isinstance(key, tuple) else (key,)
+    hash((keys, value)) # Unhashable name or strategy: nothing is changed
+    for k in keys:
+      if not isinstance(k, STR_TYPES): # A name is also an attribute name
+        raise TypeError("strategy name must be string, not '{}'"
+                        .format(type(k).__name__))
     for k in keys:
       try:
         del self[k] # Also remove self.default if it loses all keys
@@ -638,10 +643,13 @@ class StrategyDict(MultiKeyDict):
   def __delitem__(self, key):
     keys = self.key2keys(key)
     value = self[keys]
+    # Compares before removing: if a strategy "==" raises, nothing is changed
+    del_attr = hasattr(self, key) and getattr(self, key) == value
+    del_default = len(keys) == 1 and value == self.default
     super(StrategyDict, self).__delitem__(key)
-    if hasattr(self, key) and getattr(self, key) == value:
+    if del_attr:
       super(StrategyDict, self).__delattr__(key)
-    if len(keys) == 1 and value == self.default:
+    if del_default:
       super(StrategyDict, self).__delattr__("default")
 
   def __delattr__(self, attr):
